@@ -20,7 +20,7 @@ RULE = ('1-4 stages, each with a source-level safe flag (some delivered through 
         'layout: function slots (!call / !bind with literal, !xref and nested-call arguments; argument overrides; target-name overrides by string '
         'or node; lists and !del mappings; {} / !required / scalar placeholders; value-less !del), scalar-dynamic slots (!eval / f-string / !import), '
         'a lazily included !rec file holding a !call, a dynamic node re-used through a yaml alias, data slots (unique '
-        'markers, mappings, !xref aliases, and a second hop: a reference to the alias or a mapping / list holding one); !unsafe on arbitrary written nodes, on the enclosing container or on the root; key order of every '
+        'markers, mappings, !xref aliases, and a second hop: a reference to the alias or a mapping / list holding one); !unsafe on arbitrary written nodes, on the enclosing container or on the root (also with an explicit safe=True on the container below it); key order of every '
         'document permuted; non-trivial = >=1 tainted dynamic node or tainted marker reachable from a dynamic node, and >=2 stages touching '
         'that slot; distinct = hash of the case')
 BUDGET = {'quick': (4, 600), 'thorough': (16, 10000)}
@@ -150,6 +150,7 @@ def _stage(draw, idx, ctr, kinds):
         'writes': w, 'tags': tags,
         'alias': draw(st.integers(0, 2)) == 0,
         'alias2': draw(st.integers(0, 2)) == 0,
+        'grp_safe_md': draw(st.integers(0, 4)) == 0,      # an explicit "safe: True" on the group: it must not lift what is inherited from above
         'order': draw(st.permutations(sorted(k for k in w if k not in ('g1', 'gd')) + ['grp'])),
     }
 
@@ -164,7 +165,18 @@ def _case(draw):
     # a small number of taint sources per case, so that clean dynamic nodes still execute next to the tainted ones
     for _ in range(draw(st.sampled_from([0, 1, 1, 1, 2, 2, 3]))):
         s_ = stages[draw(st.integers(0, n - 1))]
-        what = draw(st.sampled_from(['source', 'source', 'root', 'grp', 'node', 'node', 'node', 'arg', 'arg', 'chain-end', 'chain-end', 'alias-src', 'alias-retarget', 'alias-data', 'alias-data', 'fstr']))
+        what = draw(st.sampled_from(['source', 'source', 'root', 'grp', 'node', 'node', 'node', 'arg', 'arg', 'chain-end', 'chain-end', 'alias-src', 'alias-retarget', 'alias-data', 'alias-data', 'fstr', 'whitelist']))
+        if what == 'whitelist':
+            # the group says "safe: True" of itself below an !unsafe document root (or in an unsafe source)
+            cands = [st_ for st_ in stages if st_['writes'].get('g1', ['x'])[0] in ('call', 'bind')]
+            if cands:
+                c_ = cands[draw(st.integers(0, len(cands) - 1))]
+                c_['grp_safe_md'] = True
+                if draw(st.integers(0, 2)) == 0:
+                    c_['safe'] = False
+                else:
+                    c_['root_unsafe'] = True
+            continue
         if what == 'alias-data':
             # (unsafety inherited from the group or the document root - a tag on the aliased node itself is part of what the alias repeats)
             cands = [st_ for st_ in stages if st_.get('alias2') and st_['writes'].get('gd', ['x'])[0] in ('lit', 'map')]
@@ -346,6 +358,9 @@ def stage_doc(stage):
                 g = tdoc.mp(grp)
                 if stage['grp_unsafe']:
                     g['unsafe'] = True
+                elif stage.get('grp_safe_md'):
+                    g['md'] = {'safe': True}
+                    g['mdstyle'] = 'braces'
                 out.append(['grp', g])
         elif k in items:
             out.append([k, items[k]])
@@ -460,6 +475,48 @@ def markers_in(v, out):
             markers_in(x, out)
 
 
+def unsafe_routes(tree):
+    """Second, model-free witness over the merged tree: for every function node vfrec.call_<k>, the first node the implementation itself
+    calls unsafe among what its arguments are made of - the argument nodes, every hop of the references they follow and what the
+    targets contain.  (The values of such nodes originate from unsafe content whatever safe data they finally point at.)"""
+    from awesomeyaml.nodes.function import FunctionNode
+    from awesomeyaml.nodes.composed import ComposedNode
+    from awesomeyaml.nodes.xref import XRefNode
+    out = {}
+
+    def visit(n, where, seen):
+        if id(n) in seen or not hasattr(n, 'ayns'):
+            return None
+        seen.add(id(n))
+        if not n.ayns.safe:
+            return f'{type(n).__name__} at {where} is unsafe'
+        if isinstance(n, XRefNode):
+            try:
+                tgt = tree.ayns.get_node(str(n))
+            except Exception:      # noqa: a dangling reference fails the build for another reason
+                return None
+            return visit(tgt, f'{where} -> {str(n)}', seen)
+        if isinstance(n, ComposedNode):
+            for name, child in n.ayns.named_children():
+                r = visit(child, f'{where}.{name}', seen)
+                if r:
+                    return r
+        return None
+    for path, n in tree.ayns.nodes_with_paths(include_self=True):
+        if isinstance(n, FunctionNode):
+            f = n.ayns.func
+            nm = f if isinstance(f, str) else getattr(f, '__name__', '')
+            if isinstance(nm, str) and nm.split('.')[-1].startswith('call_'):
+                k = int(nm.split('.')[-1][5:])
+                seen = {id(n)}
+                for name, child in n.ayns.named_children():
+                    r = visit(child, f'{path}.{name}', seen)
+                    if r:
+                        out[k] = r
+                        break
+    return out
+
+
 def run_case(case):
     from awesomeyaml import Config, EvalContext
     from awesomeyaml.builder import Builder
@@ -497,11 +554,19 @@ def run_case(case):
                 raise HarnessError(f'cannot parse generated stage: {e}\n{text}')
         src = '\nsources:\n' + '\n'.join(texts)
         vfrec.reset()
+        tree = None
+        routes = {}
+
+        def built():
+            nonlocal tree
+            tree = b.build()
+            routes.update(unsafe_routes(tree))      # (before evaluation: the low-level route evaluates this very tree)
+            return tree
         if case.get('lowlevel'):
             # documented low-level route: evaluate the merged tree itself (no deep copy in between)
-            status, got = O.try_call(lambda: EvalContext(eval_symbols={'note': vfrec.note}).evaluate(b.build()))
+            status, got = O.try_call(lambda: EvalContext(eval_symbols={'note': vfrec.note}).evaluate(built()))
         else:
-            status, got = O.try_call(lambda: Config(b.build(), eval_ctx=EvalContext(eval_symbols={'note': vfrec.note})))
+            status, got = O.try_call(lambda: Config(built(), eval_ctx=EvalContext(eval_symbols={'note': vfrec.note})))
         log = list(vfrec.LOG)
     finally:
         shutil.rmtree(tmp, ignore_errors=True)
@@ -541,6 +606,8 @@ def run_case(case):
             what = {'call': 'function called', 'note': 'code evaluated', 'import': 'module imported'}[kind]
             raise Violation(f'C07: {what} on behalf of dynamic node #{ident}, which was written by unsafe content{src}')
         ran_clean = True
+        if kind == 'call' and routes.get(ident):
+            raise Violation(f'C07: call #{ident} ran although what it is given is reached through unsafe content: {routes[ident]}{src}')
         if kind == 'call':
             check_values(f'passed to call #{ident}', [list(e[2]), e[3]])
         elif kind == 'note':
@@ -555,6 +622,8 @@ def run_case(case):
                     i = int(nm[5:])
                     if id_taint.get(i):
                         raise Violation(f'C07: !bind node #{i} written by unsafe content was evaluated to a partial{src}')
+                    if routes.get(i):
+                        raise Violation(f'C07: partial #{i} was made although what it binds is reached through unsafe content: {routes[i]}{src}')
                     check_values(f'bound to partial #{i}', [list(v.args), v.keywords])
             elif isinstance(v, dict):
                 for x in v.values():
